@@ -10,9 +10,22 @@ ANY = KRef(None)
 # value an (un)bucketed allreduce of `v` (shape `sh`) resolves to -- ONE spec function shared by the
 # contracts of allreduce() and allreduce_bucketed(), so their equivalence (C08) is a matter of both
 # bodies meeting it
-spec_def('reduced', ['v', 'sh', 'group', 'average', 'symmetric'],
-         '(filltriu(sh, smul(1 / group_size(group), allsum(triu(v), group))) if average else filltriu(sh, allsum(triu(v), group))) '
-         'if symmetric else (smul(1 / group_size(group), allsum(v, group)) if average else allsum(v, group))')
+# ---- triangular packing as terms over the indexing operations of the code (C14)
+# triu(v, sh): the elements of v at triu_indices(sh[0], sh[1]) in that order
+spec_def('triu', ['v', 'sh'], 'gather2(v, row(triuidx(sh[0], sh[1], 0), 0), row(triuidx(sh[0], sh[1], 0), 1))')
+# filltriu(sh, x, e): start from content e, write x at the upper-triangle positions, then copy the strict upper
+# triangle through the transposed view
+spec_def('put_upper', ['sh', 'x', 'e'], 'put2(e, row(triuidx(sh[0], sh[1], 0), 0), row(triuidx(sh[0], sh[1], 0), 1), x)')
+spec_def('filltriu', ['sh', 'x', 'e'],
+         'tr(put2(tr(put_upper(sh, x, e)), row(triuidx(sh[0], sh[0], 1), 0), row(triuidx(sh[0], sh[0], 1), 1), '
+         'gather2(put_upper(sh, x, e), row(triuidx(sh[0], sh[0], 1), 0), row(triuidx(sh[0], sh[0], 1), 1))))')
+# what the communicator does to the raw sum x of the (packed) tensor: average, then unpack into a buffer with
+# initial content e
+spec_def('post_reduce', ['x', 'sh', 'group', 'average', 'symmetric', 'e'],
+         '(filltriu(sh, smul(1 / group_size(group), x), e) if average else filltriu(sh, x, e)) '
+         'if symmetric else (smul(1 / group_size(group), x) if average else x)')
+spec_def('reduced', ['v', 'sh', 'group', 'average', 'symmetric', 'e'],
+         'post_reduce(allsum(triu(v, sh), group) if symmetric else allsum(v, group), sh, group, average, symmetric, e)')
 spec_def('sent_numel', ['sh', 'symmetric'], '(sh[0] * (sh[0] + 1)) // 2 if symmetric else numel(sh)')
 spec_def('nothing_pending', ['tdc'], 'all(tdc._allreduce_buckets[g] is None for g in tdc._allreduce_buckets)')
 spec_def('is_square', ['sh'], 'len(sh) == 2 and sh[0] == sh[1]')
@@ -24,30 +37,31 @@ NONSQUARE = [('NonSquareTensorError', 'group_size(group) != 1 and symmetric and 
 contract('kfac.distributed:get_triu', props=['C14', 'C08'], params={'tensor': T}, result=T,
          requires=[('tensor_present', 'tensor is not None')],
          raises=[('ValueError', 'len(tensor.shape) != 2 or tensor.shape[0] > tensor.shape[1]')],
-         ensures=[('packed_upper_triangle', 'val(result) == triu(val(tensor))'),
+         ensures=[('packed_upper_triangle', 'val(result) == triu(val(tensor), tensor.shape)'),
                   ('vector_of_the_triangle', 'len(result.shape) == 1 and result.shape[0] == tri_numel(tensor.shape[0], tensor.shape[1])'),
                   ('same_dtype_device', 'result.dtype is tensor.dtype and result.device is tensor.device'),
                   ('a_new_tensor', 'is_fresh(result) and val(tensor) == old(val(tensor))')],
-         modifies=['ghost:next_sid'], trusted=True)
+         modifies=['ghost:next_sid'])
 contract('kfac.distributed:fill_triu', props=['C14', 'C08'], params={'shape': KShape, 'triu_tensor': T}, result=T,
          requires=[('tensor_present', 'triu_tensor is not None')],
          raises=[('ValueError', 'len(shape) != 2')],
-         ensures=[('symmetric_fill', 'val(result) == filltriu(shape, val(triu_tensor))'),
+         ensures=[('symmetric_fill', 'val(result) == filltriu(shape, old(val(triu_tensor)), uninit(result.sid))'),
                   ('requested_shape', 'result.shape == shape'),
                   ('same_dtype_device', 'result.dtype is triu_tensor.dtype and result.device is triu_tensor.device'),
                   ('a_new_tensor', 'is_fresh(result) and val(triu_tensor) == old(val(triu_tensor))')],
-         modifies=['ghost:next_sid'], trusted=True)
+         modifies=['ghost:next_sid'])
 
-for name in ('allreduce', 'allreduce_bucketed'):
+for name in ('allreduce',):
     contract(
         f'kfac.distributed:TorchDistributedCommunicator.{name}', props=['C08', 'C03', 'C13', 'C14', 'C04', 'C02'],
         params={'tensor': T, 'average': KBool, 'group': G, 'symmetric': KBool}, result=ANY,
         requires=COMM_PRE, raises=NONSQUARE,
+        exsures=[('NonSquareTensorError', 'rejected_before_any_communication', 'trace() == old(trace())')],
         ensures=[
             ('single_member_group_is_identity', 'implies(group_size(group) == 1, result is tensor and trace() == old(trace()))'),
             ('future_otherwise', 'implies(group_size(group) != 1, is_future(result) and result.will_be is not None and is_fresh(result) '
                                  'and (result.will_be is tensor or is_fresh(result.will_be)))'),
-            ('value', 'implies(group_size(group) != 1, val(result.will_be) == reduced(old(val(tensor)), old(tensor.shape), group, average, symmetric))'),
+            ('value', 'implies(group_size(group) != 1, val(result.will_be) == reduced(old(val(tensor)), old(tensor.shape), group, average, symmetric, uninit(result.will_be.sid)))'),
             ('shape_and_dtype', 'implies(group_size(group) != 1, result.will_be.shape == old(tensor.shape) '
                                 'and result.will_be.dtype is old(tensor.dtype) and result.will_be.device is old(tensor.device))'),
             ('alone_nothing_changes', 'implies(group_size(group) == 1, val(tensor) == old(val(tensor)) and tensor.shape == old(tensor.shape))'),
@@ -63,6 +77,7 @@ contract(
     'kfac.distributed:TorchDistributedCommunicator.broadcast', props=['C08', 'C03', 'C13', 'C14', 'C02'],
     params={'tensor': T, 'src': KInt, 'group': G, 'symmetric': KBool}, result=ANY,
     requires=COMM_PRE + [('root_is_member', 'rank_in_group(src, group)')], raises=NONSQUARE,
+    exsures=[('NonSquareTensorError', 'rejected_before_any_communication', 'trace() == old(trace())')],
     ensures=[
         ('single_member_group_is_identity', 'implies(group_size(group) == 1, result is tensor and trace() == old(trace()))'),
         ('future_otherwise', 'implies(group_size(group) != 1, is_future(result) and result.will_be is not None and is_fresh(result) '
@@ -77,8 +92,19 @@ contract(
 )
 contract(
     'kfac.distributed:TorchDistributedCommunicator.flush_allreduce_buckets', props=['C08', 'C03'],
-    ensures=[('nothing_left_pending', 'nothing_pending(self)')], modifies=['self._allreduce_buckets', '*._tensors', '*._futures', '*._size', '*._communicated',
-                          'ghost:trace', 'ghost:next_sid'], trusted=True,
+    requires=[('invariant', 'tdc_inv(self)')],
+    ensures=[('nothing_left_pending', 'nothing_pending(self)'), ('invariant', 'tdc_inv(self)'),
+             # C08 end to end on the real code with real processes (bounded stand-in for the [composed] clauses)
+             ('every_request_resolves_like_an_unbucketed_allreduce[bounded]', 'bucketed_requests_ok(self)')],
+    loops={'iter:self._allreduce_buckets.items()': dict(index='i', invariants=[
+        ('flushed_prefix', 'all(self._allreduce_buckets[key_at(self._allreduce_buckets, m)] is None for m in range(i))'),
+        ('same_groups', 'len(self._allreduce_buckets) == len(old(self._allreduce_buckets)) and '
+                        'all(key_at(self._allreduce_buckets, m) == key_at(old(self._allreduce_buckets), m) for m in range(len(self._allreduce_buckets)))'),
+        ('rest_untouched', 'all(self._allreduce_buckets[key_at(self._allreduce_buckets, m)] is '
+                           'old(self._allreduce_buckets)[key_at(old(self._allreduce_buckets), m)] for m in range(i, len(self._allreduce_buckets)))'),
+        ('invariant', 'tdc_inv(self)')])},
+    modifies=['self._allreduce_buckets', '*._tensors', '*._futures', '*._size', '*._communicated', '*.val',
+              'ghost:trace', 'ghost:next_sid'],
 )
 
 
@@ -95,7 +121,8 @@ contract(f'{B}.add_tensor', props=['C08'], params={'tensor': T}, result=FUT,
          requires=[('tensor_present', 'tensor is not None'), ('lists_aligned', 'len(self._tensors) == len(self._futures)')],
          ensures=[('appended_last', 'self._tensors == old(self._tensors) + [tensor] and self._futures == old(self._futures) + [result]'),
                   ('size_grows_by_the_tensor', 'self._size == old(self._size) + bytes_of(tensor)'),
-                  ('a_new_pending_future', 'is_future(result) and is_fresh(result) and not result.resolved')],
+                  ('a_new_pending_future', 'is_future(result) and is_fresh(result) and not result.resolved and result.will_be is not None'),
+                  ('futures_stay_distinct', 'implies(old(distinct_futures(self)), distinct_futures(self))')],
          modifies=['self._tensors', 'self._futures', 'self._size', 'ghost:next_sid'])
 contract(f'{C}.bucket_cap_bytes', props=['C08'], result=KInt, mode='inline')
 contract(f'{C}.group_ranks', props=['C08', 'C03'], params={'group': G}, result=KSetInt,
@@ -104,30 +131,37 @@ contract(f'{C}.group_ranks', props=['C08', 'C03'], params={'group': G}, result=K
 
 # class invariant of the communicator: a bucket is filed under the member set of ITS group (finding F4:
 # the key used to be the group size), and its two lists run in parallel
-spec_def('bucket_ok', ['b', 'key'], 'group_members(b._group) == key and in_group(b._group) and len(b._tensors) == len(b._futures)')
+spec_def('distinct_futures', ['b'], 'all(b._futures[i] is not b._futures[j] for i in range(len(b._futures)) for j in range(i))')
+spec_def('bucket_ok', ['b', 'key'],
+         'group_members(b._group) == key and in_group(b._group) and len(b._tensors) == len(b._futures) and not b._communicated '
+         'and all(b._tensors[i] is not None and b._futures[i] is not None for i in range(len(b._tensors))) and distinct_futures(b)')
 spec_def('tdc_inv', ['tdc'], 'all(implies(tdc._allreduce_buckets[k] is not None, bucket_ok(tdc._allreduce_buckets[k], k)) '
                              'for k in tdc._allreduce_buckets)')
+spec_def('tdc_inv_except', ['tdc', 'k0'], 'all(implies(k != k0 and tdc._allreduce_buckets[k] is not None, bucket_ok(tdc._allreduce_buckets[k], k)) '
+                                          'for k in tdc._allreduce_buckets)')
 contract(f'{C}._get_allreduce_bucket', props=['C08'], params={'group': G}, result=BK,
-         requires=[('member_of_group', 'in_group(group)'), ('invariant', 'tdc_inv(self)')],
+         requires=[('member_of_group', 'in_group(group)')],
          ensures=[('bucket_of_the_group', 'result is (old(self._allreduce_buckets)[group_members(group)] '
                                           'if group_members(group) in old(self._allreduce_buckets) else None)'),
                   # the table is a defaultdict: looking a group up files None under it
                   ('lookup_files_the_key', 'self._allreduce_buckets[group_members(group)] is result'),
-                  ('invariant', 'tdc_inv(self)')],
+                  ('other_groups_unchanged', 'all(implies(k != group_members(group), k in self._allreduce_buckets and self._allreduce_buckets[k] is old(self._allreduce_buckets)[k]) for k in old(self._allreduce_buckets))'),
+                  ('invariant_kept', 'implies(old(tdc_inv(self)), tdc_inv(self))'),
+                  ('invariant_of_the_other_groups_kept', 'implies(old(tdc_inv_except(self, group_members(group))), tdc_inv_except(self, group_members(group)))')],
          modifies=['self._allreduce_buckets'])
 contract(f'{C}._new_allreduce_bucket', props=['C08'], params={'group': G}, result=BK,
-         requires=[('member_of_group', 'in_group(group)'), ('invariant', 'tdc_inv(self)')],
+         requires=[('member_of_group', 'in_group(group)'), ('invariant_of_the_other_groups', 'tdc_inv_except(self, group_members(group))')],
          lets={'cur': '(old(self._allreduce_buckets)[group_members(group)] if group_members(group) in old(self._allreduce_buckets) else None)'},
          raises=[('RuntimeError', 'cur is not None and not cur._communicated')],
          ensures=[('fresh_empty_bucket_for_the_group', 'is_fresh(result) and result._group is group and len(result._tensors) == 0 '
                                                        'and len(result._futures) == 0 and result._size == 0 and not result._communicated'),
                   ('filed_under_the_group', 'self._allreduce_buckets[group_members(group)] is result'),
+                  ('other_groups_unchanged', 'all(implies(k != group_members(group), k in self._allreduce_buckets and self._allreduce_buckets[k] is old(self._allreduce_buckets)[k]) for k in old(self._allreduce_buckets))'),
                   ('invariant', 'tdc_inv(self)')],
          modifies=['self._allreduce_buckets'])
 
 # ---- AllreduceTensorBucket.allreduce: one fused collective; every registered future resolves to the
 # reduction of ITS tensor (value, shape and dtype), each tensor is communicated exactly once
-spec_def('distinct_futures', ['b'], 'all(b._futures[i] is not b._futures[j] for i in range(len(b._futures)) for j in range(i))')
 RESOLVED_V = 'val(awaited(old(self._futures)[i])) == allsum(old(vals(self._tensors))[i], self._group)'
 RESOLVED_S = 'awaited(old(self._futures)[i]).shape == old(self._tensors)[i].shape'
 RESOLVED_D = 'awaited(old(self._futures)[i]).dtype is old(self._tensors)[i].dtype'
@@ -151,7 +185,7 @@ contract(
         ('nothing_kept', 'implies(len(old(self._tensors)) != 0, len(self._tensors) == 0 and len(self._futures) == 0)'),
     ],
     # a bucket of ONE tensor is reduced in place (flatten of a single tensor is a view of it)
-    modifies=['self._communicated', 'self._tensors', 'self._futures', 'self._tensors[0].val', 'ghost:trace', 'ghost:next_sid'],
+    modifies=['self._communicated', 'self._tensors', 'self._futures', 'self._tensors[0].val if len(self._tensors) == 1', 'ghost:trace', 'ghost:next_sid'],
 )
 contract(
     f'{B}.allreduce._callback', props=['C08'], mode='inline',
@@ -159,3 +193,70 @@ contract(
         ('resolved_so_far', 'all(val(self._futures[m].will_be) == val(tensors[m]) and self._futures[m].will_be.shape == tensors[m].shape '
                             'and self._futures[m].will_be.dtype is self._tensors[m].dtype for m in range(i))')])},
 )
+
+
+# ---- allreduce_bucketed: the tensor is registered in the bucket of ITS group; the returned future is the
+# post-processing (average, unpack) of the bucket's future for it.  The clauses marked [composed] are what the
+# callers use; they are the composition of `registered_in_the_bucket_of_the_group` + `derived_from_the_bucket_future`
+# here, `every_future_resolves_to_the_reduction_of_its_tensor` of AllreduceTensorBucket.allreduce, S8
+# (a then-callback runs when its source future resolves) and A-pending (the tensor object is not already
+# pending in a bucket: a single-tensor bucket is reduced in place) -- see DESIGN 13.9.
+KEY = 'group_members(group)'
+BKT = f'self._allreduce_buckets[{KEY}]'
+contract(
+    f'{C}.allreduce_bucketed', props=['C08', 'C03', 'C13', 'C14', 'C04', 'C02'],
+    params={'tensor': T, 'average': KBool, 'group': G, 'symmetric': KBool}, result=ANY,
+    requires=COMM_PRE + [('invariant', 'tdc_inv(self)'), ('capacity_is_a_number', 'isinstance(self._bucket_cap_mb, (int, float))')],
+    raises=NONSQUARE,
+    exsures=[('NonSquareTensorError', 'rejected_before_any_communication', 'trace() == old(trace())')],
+    ensures=[
+        ('single_member_group_is_identity', 'implies(group_size(group) == 1, result is tensor and trace() == old(trace()))'),
+        ('future_otherwise', 'implies(group_size(group) != 1, is_future(result) and result.will_be is not None and is_fresh(result))'),
+        ('invariant', 'tdc_inv(self)'),
+        ('registered_in_the_bucket_of_the_group',
+         f'implies(group_size(group) != 1, {BKT} is not None and group_members({BKT}._group) == {KEY} and len({BKT}._tensors) >= 1 '
+         f'and (val({BKT}._tensors[len({BKT}._tensors) - 1]) == triu(old(val(tensor)), old(tensor.shape)) if symmetric '
+         f'else {BKT}._tensors[len({BKT}._tensors) - 1] is tensor))'),
+        ('derived_from_the_bucket_future',
+         f'implies(group_size(group) != 1, val(result.will_be) == '
+         f'post_reduce(val({BKT}._futures[len({BKT}._futures) - 1].will_be), old(tensor.shape), group, average, symmetric, uninit(result.will_be.sid)))'),
+        ('bucket_within_capacity_unless_single', f'implies(group_size(group) != 1, {BKT}._size <= int(self._bucket_cap_mb * 1000 * 1000) '
+                                                 f'or len({BKT}._tensors) == 1)'),
+        ('buckets_of_other_groups_untouched',
+         f'all(implies(k != {KEY}, k in self._allreduce_buckets and self._allreduce_buckets[k] is old(self._allreduce_buckets)[k] and '
+         f'implies(self._allreduce_buckets[k] is not None, len(self._allreduce_buckets[k]._tensors) == old(len(self._allreduce_buckets[k]._tensors)) '
+         f'and not self._allreduce_buckets[k]._communicated)) for k in old(self._allreduce_buckets))'),
+        ('at_most_one_fused_collective', 'len(trace()) <= len(old(trace())) + 1'),
+        ('value[composed]', 'implies(group_size(group) != 1, val(result.will_be) == reduced(old(val(tensor)), old(tensor.shape), group, average, symmetric, uninit(result.will_be.sid)))'),
+        ('shape_and_dtype[composed]', 'implies(group_size(group) != 1, result.will_be.shape == old(tensor.shape) '
+                                      'and result.will_be.dtype is old(tensor.dtype) and result.will_be.device is old(tensor.device))'),
+        ('alone_nothing_changes', 'implies(group_size(group) == 1, val(tensor) == old(val(tensor)) and tensor.shape == old(tensor.shape))'),
+    ],
+    modifies=['self._allreduce_buckets', '*._tensors', '*._futures', '*._size', '*._communicated', '*.val', 'ghost:trace', 'ghost:next_sid'],
+)
+
+contract(f'{C}.__init__', props=['C08'], params={'bucket_cap_mb': KReal},
+         ensures=[('no_buckets_yet', 'len(self._allreduce_buckets) == 0 and tdc_inv(self) and nothing_pending(self)'),
+                  ('capacity', 'self._bucket_cap_mb == bucket_cap_mb')],
+         modifies=['self._bucket_cap_mb', 'self._allreduce_buckets'])
+
+
+# ================================================================== C14: packing is lossless (mathematics of the terms above)
+from pyvc.tensors import KMat   # noqa: E402
+SYM = 'all(elem({m}, i, j) == elem({m}, j, i) for i in range(n) for j in range(n))'
+lemma('kfac.distributed:fill_triu', 'pack_then_unpack_reproduces_a_symmetric_matrix', props=['C14'],
+      vars={'X': KMat, 'e': KMat, 'n': KInt},
+      hyps=['n >= 0', SYM.format(m='X')],
+      goal='all(elem(filltriu([n, n], triu(X, [n, n]), e), i, j) == elem(X, i, j) for i in range(n) for j in range(n))',
+      theory=['triu'],
+      text='fill_triu(shape, get_triu(X)) has exactly the elements of X for every symmetric n x n matrix X, whatever '
+           'the initial content e of the output buffer')
+lemma('kfac.distributed:fill_triu', 'symmetric_reduction_equals_dense_reduction', props=['C14', 'C08'],
+      vars={'X': KMat, 'e': KMat, 'n': KInt, 'c': KReal, 'g': G},
+      hyps=['n >= 0', SYM.format(m='allsum(X, g)')],
+      goal='all(elem(filltriu([n, n], smul(c, allsum(triu(X, [n, n]), g)), e), i, j) == elem(smul(c, allsum(X, g)), i, j) '
+           'for i in range(n) for j in range(n)) and '
+           'all(elem(filltriu([n, n], allsum(triu(X, [n, n]), g), e), i, j) == elem(allsum(X, g), i, j) for i in range(n) for j in range(n))',
+      theory=['triu'],
+      text='reducing the packed upper triangle and unpacking gives, element for element, the dense reduction '
+           '(sum or average) whenever the reduced matrix is symmetric')
